@@ -393,6 +393,26 @@ def websocketError : WsErr → Nat × Bool
   | .status _ => (1001, true)
   | .plain => (1001, false)
 
+/-! ### the close reason must fit a control frame: `truncateCloseReason` (valid UTF-8 input) -/
+
+def maxCloseReasonLen : Nat := 123
+
+/-- `utf8.RuneStart` -/
+def isRuneStart (b : UInt8) : Bool := b &&& 0xC0 != 0x80
+
+/-- `for cut > 0 && !utf8.RuneStart(reason[cut]) { cut-- }` -/
+def backToRuneStart (s : Bytes) : Nat → Except Fault Nat
+  | 0 => .ok 0
+  | cut + 1 => do
+    let b ← goIndex s ((cut + 1 : Nat) : Int)     -- reason[cut]
+    if isRuneStart b then .ok (cut + 1) else backToRuneStart s cut
+
+def truncateCloseReason (s : Bytes) : Except Fault Bytes :=
+  if s.length ≤ maxCloseReasonLen then .ok s
+  else do
+    let cut ← backToRuneStart s maxCloseReasonLen
+    goSliceTo s cut                                -- reason[:cut]
+
 /-- Close codes a server may put on the wire (RFC 6455 §7.4.1: 1005, 1006, 1015 are reserved). -/
 def validCloseCode (c : Nat) : Bool :=
   (1000 ≤ c && c ≤ 1003) || (1007 ≤ c && c ≤ 1011) || (3000 ≤ c && c ≤ 4999)
